@@ -19,9 +19,9 @@ type c18Stream struct{}
 
 func (c18Stream) Name() string               { return "c18" }
 func (c18Stream) CaseTimeout() time.Duration { return 60 * time.Second }
-func (c18Stream) NoModel() bool               { return true }
+func (c18Stream) NoModel() bool              { return true }
 func (c18Stream) Rule() string {
-	return "TLS configurations {server authentication only, client certificate required and verified (the test directory's WithMTLS configuration)} x offenders {plaintext LDAP request of each of the seven operations, random bytes, TCP connect without ClientHello, valid TLS without a client certificate, a certificate from a different CA} (1..6 offenders in parallel), concurrently with two conforming clients issuing requests; oracle: no handler ever runs for an offender's message (offenders use reserved message ids), every conforming request is answered, and each offender's connection is ended without disturbing the others; non-trivial = at least one offender whose bytes would decode as LDAP, distinct by scenario"
+	return "TLS configurations {server authentication only, client certificate required and verified (the test directory's WithMTLS configuration)} x {static certificate list, certificate supplied by the GetCertificate callback} x offenders {plaintext LDAP request of each of the seven operations, random bytes, TCP connect without ClientHello, valid TLS without a client certificate, a certificate from a different CA} (1..6 offenders in parallel), concurrently with two conforming clients issuing requests and a third that connects while the offenders (a silent one holds its connection for 1.2 s) are still there; oracle: no handler ever runs for an offender's message (offenders use reserved message ids), every conforming request is answered, and each offender's connection is ended without disturbing the others; non-trivial = at least one offender whose bytes would decode as LDAP, distinct by scenario"
 }
 
 var c18Offenders = []string{"plain-bind", "plain-search", "plain-modify", "plain-add", "plain-delete", "plain-extended", "plain-unbind", "random", "silent", "nocert", "othercert"}
@@ -38,7 +38,7 @@ func (c18Stream) Generate(rng *rand.Rand, n int, thorough bool) []Case {
 				offs[i] = "plain-bind" // without client-auth these two are conforming clients
 			}
 		}
-		cs = append(cs, Case{Line: fmt.Sprintf("c18 mtls=%d offenders=%s seed=%d", mtls, strings.Join(offs, ","), rng.Intn(1<<30)), Kind: fmt.Sprintf("mtls%d", mtls)})
+		cs = append(cs, Case{Line: fmt.Sprintf("c18 mtls=%d certvia=%s offenders=%s seed=%d", mtls, []string{"static", "static", "callback"}[rng.Intn(3)], strings.Join(offs, ","), rng.Intn(1<<30)), Kind: fmt.Sprintf("mtls%d", mtls)})
 	}
 	return cs
 }
@@ -49,6 +49,14 @@ func (c18Stream) Impl(c Case) string {
 	srvCfg, goodCli := srvTLS, cliTLS
 	if p["mtls"] == "1" {
 		srvCfg, goodCli = srvMTLS, cliMTLS
+	}
+	if p["certvia"] == "callback" {
+		// a configuration whose certificate comes from the GetCertificate callback (reloading, SNI): as much a TLS
+		// configuration as one with a static certificate list
+		cert := srvCfg.Certificates[0]
+		srvCfg = srvCfg.Clone()
+		srvCfg.Certificates = nil
+		srvCfg.GetCertificate = func(*tls.ClientHelloInfo) (*tls.Certificate, error) { return &cert, nil }
 	}
 	var offenderHandled int32
 	var handled int64
@@ -134,7 +142,7 @@ func (c18Stream) Impl(c Case) string {
 				defer c.Close()
 				switch kind {
 				case "silent":
-					time.Sleep(60 * time.Millisecond)
+					time.Sleep(1200 * time.Millisecond)
 					return
 				case "random":
 					b := make([]byte, 64)
@@ -171,6 +179,26 @@ func (c18Stream) Impl(c Case) string {
 				}
 			}
 		}(i, kind)
+	}
+	// a conforming client that arrives while the offenders are busy offending: their attempts "end only their
+	// own connection", so it is served promptly
+	time.Sleep(15 * time.Millisecond)
+	{
+		cfg := goodCli.Clone()
+		cfg.ServerName = "localhost"
+		t0 := time.Now()
+		c, err := tls.DialWithDialer(&net.Dialer{Timeout: 900 * time.Millisecond}, "tcp", sut.addr, cfg)
+		if err != nil {
+			fail("a conforming client arriving while offenders are connected was not served within 900ms: %v", err)
+		} else {
+			cl := &rawClient{c: c}
+			_ = cl.send(opFrame("bind", 777))
+			f, err := cl.readFrame(900*time.Millisecond - time.Since(t0))
+			if err != nil || !strings.HasPrefix(strictView(f), "result id=777 ") {
+				fail("a conforming client arriving while offenders are connected was not answered within 900ms: %v", err)
+			}
+			c.Close()
+		}
 	}
 	ow.Wait()
 	time.Sleep(30 * time.Millisecond)
